@@ -58,7 +58,11 @@ Touches(r, f) == r.lam[1] = "at" /\ ~Crosses(r, f) /\ (r.lo[f] = r.lam[2] \/ r.h
 Selected(r)   == { f \in 1..r.n : Crosses(r, f) \/ Touches(r, f) }
 \* the documented domain of _get_zonal_face_interval: "the span of the face in longitude should be less than pi"
 \* (a face that encloses a pole spans the whole circle); the pole latitudes themselves are the hard-coded special case
-Claimed(r)    == r.atpole \/ \A f \in Selected(r) : ~r.pole[f]
+\* Also not judged: a latitude that is exactly the interior extreme of an edge and no corner's latitude -- the parallel
+\* is tangent to that edge, the touched faces meet it in a single point that floating point cannot hit, and when only
+\* such faces are selected the weights are 0 / 0.
+Claimed(r)    == r.atpole \/ ( /\ \A f \in Selected(r) : ~r.pole[f]
+                              /\ (r.lam[1] = "at" => r.lam[2] \in Ran(r.nodepos)) )
 MeshClauses(r) ==
     IF ~Claimed(r) THEN [ Unclaimed |-> TRUE ]
     ELSE IF Ran(r.cand) # Selected(r) THEN [ BoundsSelect |-> FALSE ]
@@ -71,6 +75,19 @@ MeshClauses(r) ==
            Oracle   |-> \A f \in Selected(r) : r.orc[f],
            Symmetry |-> r.sym ]
 
+\* abstract signature of a failing mesh record (decided here from the exact facts; used to match known findings)
+MeshSig(r) ==
+    LET at == r.lam[1] = "at"
+        p  == r.lam[2]
+    IN [ lam_kind |-> r.lam[1], at_pole |-> r.atpole,
+         lam_is_corner_latitude |-> at /\ p \in Ran(r.nodepos),
+         \* a selected face that the parallel only touches, in the two end points of one of its edges
+         touched_in_two_corners |-> at /\ \E f \in Selected(r) : Touches(r, f) /\ p \in Ran(r.flat[f]),
+         \* a selected face that the parallel only touches, at the interior extreme of an edge (tangency)
+         touched_by_tangency |-> at /\ \E f \in Selected(r) : Touches(r, f) /\ p \notin Ran(r.corners[f]),
+         \* a face that is crossed AND has a corner or a tangency exactly on the parallel
+         crossed_with_extra_contact |-> at /\ \E f \in Selected(r) : Crosses(r, f) /\ (p \in Ran(r.corners[f]) \/ p \in Ran(r.tops[f])) ]
+
 Clauses(r) == CASE r.kind = "sweep" -> SweepClauses(r)
                 [] r.kind = "weights" -> WeightClauses(r)
                 [] r.kind = "mesh" -> MeshClauses(r)
@@ -81,6 +98,6 @@ Next == /\ i < 0
         /\ i' \in { k \in 1..Len(Recs) : (k - 1) \div Block = (-i) - 1 }
 Judge == i > 0 => LET r == Recs[i]
                       fl == Failed(r)
-                  IN /\ (fl = {} \/ PrintT(<<"V", r.id, fl>>))
+                  IN /\ (fl = {} \/ PrintT(<<"V", r.id, fl, IF r.kind = "mesh" THEN MeshSig(r) ELSE [ kind |-> r.kind ]>>))
                      /\ (r.kind # "mesh" \/ Claimed(r) \/ PrintT(<<"U", r.id>>))
 =============================================================================
